@@ -611,3 +611,99 @@ def file_nodes(ctx):
     else:
         ctx.inconclusive.append("vacuity: no file nodes")
     ctx.sample({"paths": E.paths})
+
+
+# ---------------------------------------------------------------------------------------
+# O5: modules and submodules: the used-by graph of a module is the inverse view of the uses graphs (use edges and submodule ancestry)
+# ---------------------------------------------------------------------------------------
+SUBUSE = [("implicit none", False), ("use base_mod", True), ("USE BASE_MOD", True)]
+
+
+def _sm_files(pu, cu, gu):
+    return {"a.f90": ["module base_mod", "integer :: b", "end module base_mod",
+                      "module parent_mod", pu, "interface", "module subroutine work()", "end subroutine work", "end interface", "end module parent_mod",
+                      "submodule (parent_mod) child_smod", cu, "end submodule child_smod",
+                      "submodule (parent_mod:child_smod) grand_smod", gu, "end submodule grand_smod"]}
+
+
+def _sm_observe(p):
+    import ford.graphs as gr
+    oldd, oldg = gr.Digraph, gr.graphviz_installed
+    gr.Digraph, gr.graphviz_installed = _Rec3, False
+    try:
+        gm = gr.GraphManager("", "", False, False, save_graphs=False)
+        for lst in (p.types, p.procedures, p.submodprocedures, p.modules, p.submodules, p.programs, p.files, p.blockdata):
+            for e in lst:
+                gm.register(e)
+        gm.graph_all()
+        ents = {str(e.name).lower(): e for e in list(p.modules) + list(p.submodules)}
+        uses = {k: set(e.usesgraph.dot.edges) for k, e in ents.items()}
+        usedby = {k: (set(e.usedbygraph.dot.nodes), set(e.usedbygraph.dot.edges)) for k, e in ents.items() if hasattr(e, "usedbygraph")}
+        return uses, usedby
+    finally:
+        gr.Digraph, gr.graphviz_installed = oldd, oldg
+
+
+def _sm_missing(obs):
+    uses, usedby = obs
+    out = []
+    for root, (nodes, edges) in sorted(usedby.items()):
+        for x, es in sorted(uses.items()):
+            for (a, b) in sorted(es):
+                if a in nodes and b in nodes and (a, b) not in edges:
+                    out.append((root, x, a, b))
+    return out
+
+
+def replay_sm(w):
+    import io, contextlib
+    import ford.sourceform as sf
+    old = sf.namelist
+    sf.namelist = sf.NameSelector()
+    try:
+        with contextlib.redirect_stdout(io.StringIO()), contextlib.redirect_stderr(io.StringIO()):
+            p = _parserh.project_concrete(_sm_files(*w["uses"]), **GSET3)
+            obs = _sm_observe(p)
+    finally:
+        sf.namelist = old
+    missing = _sm_missing(obs)
+    return bool(missing), {"use statements (parent module, child submodule, grandchild submodule)": w["uses"],
+                           "(used-by graph of, uses graph of, edge) present in the uses graph, both ends shown, edge missing": missing[:6]}
+
+
+@obligation("C13", "O5.used-by-is-the-inverse-view", engine="SX(CV)", timeout=900)
+def usedby_inverse(ctx):
+    """module, child submodule and grandchild submodule with symbolic USE statements of a base module: every edge of a uses graph whose two
+    ends are shown in some used-by graph is an edge of that used-by graph (use edges and submodule ancestry edges alike)"""
+    import io, contextlib
+    import ford.graphs as gr
+
+    ctx.encode_fn(gr.UsedByGraph.add_node, "UsedByGraph.add_node")
+    ctx.encode_fn(gr.UsesGraph.add_node, "UsesGraph.add_node")
+    ctx.encode_fn(gr.ModNode.__init__, "ModNode.__init__")
+    ctx.bounds.update({"use options per unit": len(SUBUSE), "units": 3})
+
+    def h(E):
+        us = [_CV.choice(E, f"u{i}", SUBUSE) for i in range(3)]
+        E.e.snapshot = lambda m: {"uses": [_choice.value_in_model(m, u)[0] for u in us]}
+        with contextlib.redirect_stdout(io.StringIO()), contextlib.redirect_stderr(io.StringIO()):
+            obs = _parserh.project(_sm_files(us[0][0], us[1][0], us[2][0]), post=_sm_observe, post_modules=(gr,), **GSET3)
+        E.reachable("graphs")
+        if any(len(v[1]) > 1 for v in obs[1].values()):
+            E.reachable("a used-by graph with several edges")
+        E.require(not _sm_missing(obs), "an edge of a uses graph is missing from a used-by graph that shows both of its ends")
+
+    E = sym.Engine(ctx, max_paths=5000, incremental=True)
+    found = E.explore(h)
+    seen = set()
+    for (label, m, pc), snap in zip(found, E.snapshots):
+        if label in seen or not snap:
+            continue
+        seen.add(label)
+        ctx.report(label, snap, replay_sm)
+    for lab in ("graphs", "a used-by graph with several edges"):
+        if E.reached.get(lab):
+            ctx.twins += 1
+        else:
+            ctx.inconclusive.append(f"vacuity: '{lab}' never reached")
+    ctx.sample({"paths": E.paths})
